@@ -854,6 +854,8 @@ class Pure:
                 return Num(K, "int")
             if name == "is_2d":
                 return BoolN(isinstance(args[0], F2))
+            if name == "ident":
+                return Num(IDENT(to_int(args[0])), "int")
             if name == "is_tuple":
                 return BoolN(isinstance(args[0], TupV))
             if name == "is_none":
@@ -1136,7 +1138,11 @@ def finish_raise(db, I, c, s, env, pre_env, exc, tag):
         cond = db.eval_clause(I, s, db.clause(c, c.raises[exc.cls]), pre_env)
         I.oblige(s, cond, "raises-only-if", f"{exc.cls}:{c.raises[exc.cls]}", wh)
         # a rejected request leaves every argument (incl. self) untouched
-        for path, g in frame_goals(db, I, FrameAll(c), s, env, strict_fields=True):
+        fenv = env
+        if c.opts.get("constructor"):
+            # a constructor that raises never hands the half-built object to anyone: only the arguments must be untouched
+            fenv = {k: v for k, v in env.items() if k not in c.modifies}
+        for path, g in frame_goals(db, I, FrameAll(c), s, fenv, strict_fields=True):
             I.oblige(s, g, "frame-on-raise", f"{exc.cls}:{path}", wh, assume=False)
     elif exc.cls in c.raises_only:
         pass
